@@ -209,6 +209,8 @@ struct Nft {
     batch_sizes: Vec<u32>,
     /// also transfer to the third account / token-level approvals
     rich: bool,
+    /// deep worlds: per id only transfer (self / other), transfer_from (other), burn + refusal probes
+    lean: bool,
 }
 
 struct Inst {
@@ -407,6 +409,7 @@ impl Nft {
                     holder(m, *id)
                 );
                 m.set(*id, None);
+                if *id > 0 && m.owner(*id - 1) == Some(*from) { m.set(*id - 1, None); }
                 m.touched.insert(*id);
                 m.approved.remove(id);
             }
@@ -650,10 +653,14 @@ impl World for Nft {
                     }
                     v.push(Op::Transfer { from: n, to: o, id, by: By::NonOwner });
                     v.push(Op::TransferFrom { sp: OPERATOR, from: o, to: n, id });
-                    v.push(Op::TransferFrom { sp: OPERATOR, from: o, to: o, id });
+                    if !self.lean {
+                        v.push(Op::TransferFrom { sp: OPERATOR, from: o, to: o, id });
+                    }
                     v.push(Op::Burn { from: o, id, by: By::Owner });
                     v.push(Op::Burn { from: n, id, by: By::NonOwner });
-                    v.push(Op::BurnFrom { sp: OPERATOR, from: o, id });
+                    if !self.lean {
+                        v.push(Op::BurnFrom { sp: OPERATOR, from: o, id });
+                    }
                     // token-level approval: to the account that is neither owner nor operator
                     let x = (0..N).find(|a| *a != o && *a != OPERATOR).unwrap_or(0);
                     if approve_ids.contains(&id) && m.approved.get(&id) != Some(&x) {
@@ -781,6 +788,7 @@ fn main() {
                 mint_to: mint_to.clone(),
                 batch_sizes: vec![1, 2, 3, 5],
                 rich: th,
+                lean: false,
             };
             let d: usize = std::env::var("C10_D").ok().and_then(|x| x.parse().ok()).unwrap_or(tier.pick(4, 5));
             let only = std::env::var("C10_ONLY").unwrap_or_default();
@@ -791,6 +799,13 @@ fn main() {
             r.world(&small(Flavour::EnumSeq, "nft-enumerable-sequential"), &Bounds::new(d, wall));
             r.world(&small(Flavour::EnumExplicit, "nft-enumerable-explicit-ids"), &Bounds::new(d, wall));
             r.world(&small(Flavour::Consecutive, "nft-consecutive"), &Bounds::new(d, wall));
+            if th {
+                let mut deep = small(Flavour::Consecutive, "nft-consecutive-deep");
+                deep.mint_to = vec![0, 1];
+                deep.rich = false;
+                deep.lean = true;
+                r.world(&deep, &Bounds::new(d + 1, wall));
+            }
             let seeded = |name: &'static str, seeds: Vec<u32>| Nft {
                 flavour: Flavour::Consecutive,
                 thorough: th,
@@ -799,6 +814,7 @@ fn main() {
                 mint_to: vec![0, 1],
                 batch_sizes: vec![1, 2, 3, 5],
                 rich: false,
+                lean: false,
             };
             r.world(&seeded("nft-consecutive-item-edge", vec![31, 32, 33]), &Bounds::new(std::env::var("C10_DE").ok().and_then(|x| x.parse().ok()).unwrap_or(tier.pick(3, 4)), wall));
             if th {
